@@ -122,6 +122,7 @@ class Link:
         self.inflight: list[dict] = []   # un-acknowledged attempts in send order
         self.last_del = t
         self.last_ack = t
+        self.last_dead = t
         self.end_reason: str | None = None
 
 
@@ -232,8 +233,10 @@ class Net:
         if not l.up or l.closed:
             # the stream is already dead: nothing reaches the aggregator; the caller learns it after `lat`
             att["planned"] = "deadlink"
+            att["due"] = max(now + lat, l.last_dead)     # failures are notified in send order, too
+            l.last_dead = att["due"]
             l.inflight.append(att)
-            self.loop.call_at(now + lat, self._dead_timeout, l, att)
+            self.loop.call_at(att["due"], self._dead_timeout, l)
             return att["fut"]
         att["due"] = max(now + lat, l.last_del)
         l.last_del = att["due"]
@@ -241,10 +244,14 @@ class Net:
         self.loop.call_at(att["due"], self._pump, l)
         return att["fut"]
 
-    def _dead_timeout(self, l: Link, att: dict):
-        if att["result"] == "pending":
-            if att in l.inflight:
-                l.inflight.remove(att)
+    def _dead_timeout(self, l: Link):
+        now = self.loop.time() + _EPS
+        for att in list(l.inflight):
+            if att["planned"] != "deadlink" or att["result"] != "pending":
+                continue
+            if att["due"] > now:
+                break
+            l.inflight.remove(att)
             self._fail(att, "fail-deadlink", ConnectionClosedError(None, None))
 
     def _pump(self, l: Link):
